@@ -301,6 +301,39 @@ def c20_6(ctx):
     ctx.ok("base-exists")
 
 
+# ------------------------------------------------------------------ C20.7
+RULE_METHODS = ("check", "_check_tx_inout_count", "_check_txs_out", "_check_size_limit", "_check_txs_in")
+
+
+def c20_7(ctx):
+    """the validity rules apply to every coin: a subclass of Tx anywhere in the repository that overrides one of them still runs the
+    rule it replaces on every path that returns normally (it may add refusals, not remove them)"""
+    base = ctx.p.cls(TX, "Tx")
+    family = [base] + [k for k in ctx.p.subclasses(base)]
+    n_over = 0
+    for k in family:
+        if k is base:
+            continue
+        for nm in RULE_METHODS:
+            m = k.methods.get(nm)
+            if m is None:
+                continue
+            n_over += 1
+            w = sym.walk(ctx, m)
+            supers = [e for e in w.effects if e.kind == "call" and norm(e.call.func).endswith("." + nm) and (norm(e.call.func).startswith("super(") or any(norm(e.call.func).startswith(a.name + ".") for a in ctx.p.mro(k)[1:]))]
+            outs = [e for e in w.exits if e.kind in ("return", "fall")]
+            where = ctx.where(m)
+            if not outs:
+                ctx.ok("override-keeps-rule:%s.%s" % (k.name, nm))
+                continue
+            for e in outs:
+                kept = any(sym.entails(e.cond, c.reach) if c.reach not in (True,) else True for c in supers)
+                ctx.check(kept, "override-keeps-rule:%s.%s" % (k.name, nm), ctx.where(m, e.node) if e.node is not None else where,
+                          "%s.%s overrides a validity rule of Tx and can return normally (under `%s`) without running the rule it replaces: transactions of this coin that the rule refuses are accepted"
+                          % (k.qualname.split(".", 1)[-1], nm, _fmt(e.cond)[:100] if e.cond not in (True, False) else e.cond), sample={"override": "%s.%s" % (k.name, nm)})
+    ctx.ok("tx-family", sample={"subclasses_of_Tx": len(family) - 1, "overrides_of_validity_rules": n_over}, nontrivial=False)
+
+
 OBLIGATIONS = [
     Ob("C20.1", "accepted value / total / script-length / size sets as intervals with symbolic per-coin endpoints", c20_1, floor=9,
        engines="SYM,GI,CE", breaks_if="values 0, MAX_MONEY, MAX_MONEY+1; totals crossing MAX_MONEY on the last output; coinbase script lengths 1,2,100,101; GRS limit"),
@@ -310,4 +343,5 @@ OBLIGATIONS = [
        breaks_if="input (0^32, 5); two inputs whose first is null"),
     Ob("C20.4", "check() runs the four sub-checks unconditionally", c20_4, floor=5, engines="SYM"),
     Ob("C20.6", "coinbase exemption dominates the solution count", c20_6, floor=3, engines="SYM,GI"),
+    Ob("C20.7", "no subclass of Tx anywhere in the repository overrides a validity rule without running the rule it replaces", c20_7, floor=1, engines="PM,SYM", breaks_if="a coin-specific exemption (an `extension-only` transaction without inputs or outputs)"),
 ]
